@@ -483,3 +483,28 @@ def o5_j2(h):
         run('principal', 'radial', ('tangent',), False, 300, ('nlsat', 'core'))
         run('principal', 'transverse', ('tangent',), False, 300, ('core', 'nlsat'))
         run('full', 'shear', ('stress',), False, 120, ('core', 'nlsat'))
+
+
+# ------------------------------------------------------------------------------------------------ O6 (second-order rules, shared with C12-O8)
+@obligation(P, 'O6a.second_order_helper_structure', cap=300)
+def o6a(h):
+    """shared with C12-O8a: the derivative of the jvp helper along a second direction is the product-rule derivative of its
+    Daleckii-Krein form (eigen stub with the first-order perturbation contract, generic f', f'', rd tables, eigenframe)"""
+    c12.o8a(h)
+    h.outside(*NA)
+
+
+@obligation(P, 'O6b.second_order_sqrt_identity', cap=300)
+def o6b(h):
+    """shared with C12-O8b: S'' S + S S'' + 2 S' S' = 0 through jax.jvp(jax.jvp(sqrt_symm)) with the perturbation-contract stub; replay
+    on the unmodified library against finite differences of the first derivative"""
+    c12.o8b(h)
+    h.outside(*NA)
+
+
+@obligation(P, 'O6c.second_derivative_at_repeated_eigenvalues_log', cap=400)
+def o6c(h):
+    """shared with C12-O8c (log_symm, the logarithmic-strain models): second derivative through the REAL pipeline at exactly repeated
+    eigenvalues against the second Frechet derivative"""
+    c12.o8c_log(h)
+    h.outside(*NA)
